@@ -19,7 +19,9 @@ package main
 // Observation: rc=<exit code|timeout|build> total=<N*k> fired=<lines that are not discarded samples> disc=<discarded samples>
 // bad=<lines that carry only one of tag "discarded" / net code 777> served=<requests the target answered>
 // mindisc=<fewest discarded samples of a pool> recv=<requests that arrived at the target> errs=<fired lines with a net error>
-// (counts summed over the pools)
+// (counts summed over the pools) pp=<fired>:<disc>:<bad>,... per pool, in the order of the config
+//
+// given=<a>,<b>,...: the k-th pool section gets the k-th value (none = the option is left out of that section).
 
 import (
 	"bytes"
@@ -79,17 +81,17 @@ func runProc(m map[string]string) string {
 		times = 9
 	}
 	if bin == "" {
-		return fmt.Sprintf("rc=build total=%d fired=0 disc=0 bad=0 served=0 mindisc=0 recv=0 errs=0 why=%s", times, strings.ReplaceAll(berr, " ", "_"))
+		return fmt.Sprintf("rc=build total=%d fired=0 disc=0 bad=0 served=0 mindisc=0 recv=0 errs=0 pp=- why=%s", times, strings.ReplaceAll(berr, " ", "_"))
 	}
 	lat, _ := strconv.Atoi(m["lat"])
 	dir, err := os.MkdirTemp("/var/tmp", "c04-proc-")
 	if err != nil {
-		return fmt.Sprintf("rc=tmpdir total=%d fired=0 disc=0 bad=0 served=0 mindisc=0 recv=0 errs=0", times)
+		return fmt.Sprintf("rc=tmpdir total=%d fired=0 disc=0 bad=0 served=0 mindisc=0 recv=0 errs=0 pp=-", times)
 	}
 	defer os.RemoveAll(dir)
 	ln, err := net.Listen("tcp", "127.0.0.1:0")
 	if err != nil {
-		return fmt.Sprintf("rc=listen total=%d fired=0 disc=0 bad=0 served=0 mindisc=0 recv=0 errs=0", times)
+		return fmt.Sprintf("rc=listen total=%d fired=0 disc=0 bad=0 served=0 mindisc=0 recv=0 errs=0 pp=-", times)
 	}
 	var served, recv atomic.Int64
 	srv := &http.Server{Handler: http.HandlerFunc(func(w http.ResponseWriter, r *http.Request) {
@@ -116,7 +118,7 @@ func runProc(m map[string]string) string {
 	}
 	cfgPath := filepath.Join(dir, "load."+ext)
 	if err := os.WriteFile(cfgPath, []byte(cfg), 0o644); err != nil {
-		return fmt.Sprintf("rc=config total=%d fired=0 disc=0 bad=0 served=0 mindisc=0 recv=0 errs=0", times)
+		return fmt.Sprintf("rc=config total=%d fired=0 disc=0 bad=0 served=0 mindisc=0 recv=0 errs=0 pp=-", times)
 	}
 	ctx, cancel := context.WithTimeout(context.Background(), time.Duration(times*lat+60000)*time.Millisecond)
 	defer cancel()
@@ -141,8 +143,10 @@ func runProc(m map[string]string) string {
 		}
 	}
 	fired, disc, bad, mindisc, errs := 0, 0, 0, -1, 0
+	var pp []string
 	for _, phout := range phouts {
 		pd := 0
+		f0, b0 := fired, bad
 		if b, err := os.ReadFile(phout); err == nil {
 			for _, line := range strings.Split(string(b), "\n") {
 				f := strings.Split(line, "\t")
@@ -172,8 +176,9 @@ func runProc(m map[string]string) string {
 		if mindisc < 0 || pd < mindisc {
 			mindisc = pd
 		}
+		pp = append(pp, fmt.Sprintf("%d:%d:%d", fired-f0, pd, bad-b0))
 	}
-	return fmt.Sprintf("rc=%s total=%d fired=%d disc=%d bad=%d served=%d mindisc=%d recv=%d errs=%d", rc, times*pools, fired, disc, bad, served.Load(), mindisc, recv.Load(), errs)
+	return fmt.Sprintf("rc=%s total=%d fired=%d disc=%d bad=%d served=%d mindisc=%d recv=%d errs=%d pp=%s", rc, times*pools, fired, disc, bad, served.Load(), mindisc, recv.Load(), errs, strings.Join(pp, ","))
 }
 
 // procConfig renders the config of one proc case: `pools` identical pool sections (each with its own phout file) in the
@@ -185,16 +190,24 @@ func procConfig(m map[string]string, target string, phouts []string, times int) 
 	if m["key"] == "upper" {
 		key = "DISCARD_OVERFLOW"
 	}
-	given := m["given"]
-	if given != "none" && given != "true" && given != "false" {
+	// one value for all pools, or one per pool
+	givens := strings.Split(m["given"], ",")
+	if len(givens) != 1 && (len(givens) != len(phouts) || m["anchor"] == "1") {
 		return "", ""
+	}
+	for _, g := range givens {
+		if g != "none" && g != "true" && g != "false" {
+			return "", ""
+		}
+	}
+	givenOf := func(k int) string {
+		if len(givens) == 1 {
+			return givens[0]
+		}
+		return givens[k]
 	}
 	switch m["fmt"] {
 	case "", "yaml", "stdin":
-		opt := ""
-		if given != "none" {
-			opt = fmt.Sprintf("    %s: %s\n", key, given)
-		}
 		rps := fmt.Sprintf("      type: once\n      times: %d\n", times)
 		if m["rps"] == "mix" {
 			// one token at the start, then 2 per second for 4 s: with answers slower than 1 s the instance alternates between
@@ -203,6 +216,10 @@ func procConfig(m map[string]string, target string, phouts []string, times int) 
 		}
 		cfg := "pools:\n"
 		for k, phout := range phouts {
+			opt := ""
+			if given := givenOf(k); given != "none" {
+				opt = fmt.Sprintf("    %s: %s\n", key, given)
+			}
 			if m["anchor"] == "1" && k > 0 {
 				// the section is the first one (merge key) with its own id and result file
 				cfg += fmt.Sprintf("  - <<: *p0\n    id: c04p%d\n    result:\n      type: phout\n      destination: %s\n", k, phout)
@@ -243,7 +260,7 @@ func procConfig(m map[string]string, target string, phouts []string, times int) 
 				"rps":     map[string]any{"type": "once", "times": times},
 				"startup": map[string]any{"type": "once", "times": 1},
 			}
-			if given != "none" {
+			if given := givenOf(k); given != "none" {
 				p[key] = given == "true"
 			}
 			ps = append(ps, p)
@@ -257,7 +274,7 @@ func procConfig(m map[string]string, target string, phouts []string, times int) 
 		cfg := "[log]\nlevel = \"error\"\n"
 		for k, phout := range phouts {
 			cfg += fmt.Sprintf("[[pools]]\nid = \"c04p%d\"\n", k)
-			if given != "none" {
+			if given := givenOf(k); given != "none" {
 				cfg += fmt.Sprintf("%s = %s\n", key, given)
 			}
 			cfg += fmt.Sprintf("[pools.gun]\ntype = \"http\"\ntarget = %q\n[pools.ammo]\ntype = \"uri\"\nuris = [\"/c04 tagC04\"]\n"+
